@@ -158,6 +158,9 @@ func idOf(v any) string {
 	case nil:
 		return "nil"
 	}
+	if n, ok := v.(interface{ GetName() string }); ok {
+		return "hit:" + n.GetName() // a real node loaded from a class file
+	}
 	return fmt.Sprintf("hit:?%T", v)
 }
 
@@ -212,6 +215,15 @@ func apply(vm data.VM, o op, zv *zvNames) (res string) {
 			return "nil"
 		}
 		return idOf(c)
+	case "al": // GetOrLoadClass of a class that has a file (load stream)
+		c, acl := vm.GetOrLoadClass(o.N)
+		if acl != nil {
+			return "err:" + firstLines(acl.AsString(), 1)
+		}
+		if c == nil {
+			return "nil"
+		}
+		return "hit:" + c.GetName()
 	case "gi":
 		c, ok := vm.GetInterface(o.N)
 		if !ok {
@@ -636,14 +648,15 @@ func sequentialPart(c *vh.Ctx, m *vh.Model) {
 // ------------------------------------------------------------ concurrent stress (child process)
 
 type stressCfg struct {
-	Kind  string `json:"kind"` // "stress"
+	Kind  string `json:"kind"`  // "stress"
 	G     int    `json:"g"`     // goroutines
 	N     int    `json:"n"`     // calls per goroutine
 	Procs int    `json:"procs"` // GOMAXPROCS
 	Names int    `json:"names"` // size of the shared name pool
 	Seed  uint64 `json:"seed"`
 	Race  bool   `json:"race,omitempty"` // run the -race binary
-	Mix   string `json:"mix,omitempty"`  // "" = all calls; "add" = definitions only; "classes" = class add/get only
+	Mix   string `json:"mix,omitempty"`  // "" = all calls; "add" = definitions only; "classes" = class add/get only; "load" = autoload through class files
+	Dir   string `json:"dir,omitempty"`  // load mix: directory for the class files (set by the parent)
 }
 
 type stressVerdict struct {
@@ -696,16 +709,14 @@ func firstLines(s string, n int) string {
 
 // first frame inside origami's runtime package of a crash / race report
 func frameOf(s string) string {
+	const pre = "origami/runtime.(*VM)."
 	for _, l := range strings.Split(s, "\n") {
-		l = strings.TrimSpace(l)
-		if i := strings.Index(l, "origami/runtime.(*VM)."); i >= 0 {
-			f := l[i+len("origami/runtime."):]
-			if j := strings.IndexByte(f, '('); j > 0 && strings.HasPrefix(f, "(*VM).") {
-				if k := strings.IndexByte(f[6:], '('); k > 0 {
-					return f[:6+k]
-				}
+		if i := strings.Index(l, pre); i >= 0 {
+			f := l[i+len(pre):]
+			if k := strings.IndexAny(f, "( \t"); k > 0 {
+				f = f[:k]
 			}
-			return f
+			return "(*VM)." + f
 		}
 	}
 	return "?"
@@ -766,11 +777,23 @@ func buildRace(c *vh.Ctx) (string, error) {
 }
 
 func stressOnce(c *vh.Ctx, bin string, cfg stressCfg) bool {
+	run := cfg // what the child gets (the scratch directory is not part of the replayable case)
+	if cfg.Mix == "load" {
+		d, err := os.MkdirTemp(c.Scratch, "load")
+		if err != nil {
+			c.Note("load stream: %v", err)
+			return true
+		}
+		run.Dir = d
+	}
 	timeout := 60*time.Second + time.Duration(cfg.G*cfg.N/2000)*time.Second
 	if cfg.Race {
 		timeout *= 4
 	}
-	v, crash := runStressChild(c, bin, cfg, timeout)
+	if cfg.Mix == "load" {
+		timeout = 25 * time.Second // 16×200 loads take well under a second; a hang here is a lock held across the loader
+	}
+	v, crash := runStressChild(c, bin, run, timeout)
 	c.Eval(fmt.Sprintf("stress g=%d n=%d p=%d names=%d seed=%d race=%v mix=%s", cfg.G, cfg.N, cfg.Procs, cfg.Names, cfg.Seed, cfg.Race, cfg.Mix), true)
 	c.Hit(fmt.Sprintf("stress:g=%d", cfg.G))
 	c.Hit(fmt.Sprintf("stress:procs=%d", cfg.Procs))
@@ -823,6 +846,19 @@ func concurrentPart(c *vh.Ctx) {
 	if failed {
 		return
 	}
+	// known stream: concurrent autoload of the same class files. Kept out of the main stream
+	// (known finding C10-autoload-file-marked-before-registered); a crash or a hang here is
+	// still a violation of its own.
+	for rep := 0; rep < c.N(6, 12); rep++ {
+		cfg := stressCfg{Kind: "stress", G: vh.Pick(c.Rand, []int{4, 8, 16}), N: 200, Procs: vh.Pick(c.Rand, []int{4, 8, 16}), Names: 8, Seed: c.Rand.U64() % 1000000, Mix: "load"}
+		c.Hit("stress:load-stream")
+		if !stressOnce(c, self, cfg) && len(c.Res.KnownConfirmed) > 0 && c.Res.ViolationCount == 0 {
+			break // reproduced the known finding
+		}
+		if c.Res.ViolationCount > 0 {
+			return
+		}
+	}
 	if !c.Thorough() && os.Getenv("VERIF_C10_RACE") == "" {
 		c.Note("race detector: not used in the quick tier (set VERIF_C10_RACE=1 to force)")
 		return
@@ -834,7 +870,7 @@ func concurrentPart(c *vh.Ctx) {
 		return
 	}
 	c.Note("race-enabled harness built in %.0fs", time.Since(t0).Seconds())
-	for rep := 0; rep < c.N(1, 2); rep++ {
+	for rep := 0; rep < c.N(1, 4); rep++ {
 		for _, p := range []gn{{2, 100}, {4, 1000}, {8, 3000}, {16, 1000}, {16, 10000}} {
 			cfg := stressCfg{Kind: "stress", G: p.g, N: p.n, Procs: vh.Pick(c.Rand, []int{2, 4, 8, 16}), Names: max(4, p.g*p.n/vh.Pick(c.Rand, []int{4, 16, 64})), Seed: c.Rand.U64() % 1000000, Race: true}
 			if !stressOnce(c, rb, cfg) {
